@@ -231,6 +231,22 @@ theorem xStep_eq (C : LexCtx) (S : List XPos) (c : Int) :
         | some t => termHas t c
         | none => false).map xAdvance) := rfl
 
+/-- the specific movers of `xStep`, as a named predicate -/
+def specP (C : LexCtx) (c : Int) (x : XPos) : Bool :=
+  match xExpected C x with
+  | some t => termHas t c
+  | none => false
+
+/-- the `.` movers of `xStep`, as a named predicate -/
+def dotP (C : LexCtx) (x : XPos) : Bool :=
+  match xExpected C x with
+  | some .dot => true
+  | _ => false
+
+theorem xStep_eq' (C : LexCtx) (S : List XPos) (c : Int) :
+    xStep C S c = xClosure C ((if (S.filter (specP C c)).isEmpty then S.filter (dotP C)
+      else S.filter (specP C c)).map xAdvance) := rfl
+
 /-- (M2) a rune of class `c`: `nextSet` and `xStep` give the same set -/
 theorem step_class {C : LexCtx} (hC : NoRefC C) {items : List LItem} {S : List XPos}
     (hrel : SetRel items S) (hlen : S.length ≤ C.fuel) {c : CR}
